@@ -269,6 +269,33 @@ def check_property(pid, tier):
                                                    'clause_or_statement': f.span_text, 'origin': f.origin, 'exit': f.exit_text,
                                                    'verifier_output': f.rendered, 'generated_file': r.path, 'generated_line': f.line}))
 
+    # ---- thorough tier: proof stability under other solver seeds + the self-test entries of this property
+    thorough_extra = {}
+    if tier == 'thorough' and not violations and not undecided:
+        seeds = [7, 1234567]
+        with cf.ThreadPoolExecutor(max_workers=8) as ex:
+            futs = {(u, sd): ex.submit(vrun.run_unit, u, REPO, ['--smt-option', 'smt.random_seed=%d' % sd, '--smt-option', 'sat.random_seed=%d' % sd], None, 'seed%d' % sd)
+                    for u in prop['units'] for sd in seeds}
+            unstable = []
+            for (u, sd), f in futs.items():
+                r = f.result()
+                if not r.ok:
+                    unstable.append('%s@seed%d: %s' % (u, sd, r.undecided or [x.obligation for x in r.failures][:2]))
+        thorough_extra['solver_seeds_tried'] = [0] + seeds
+        thorough_extra['unstable'] = unstable
+        for x in unstable:
+            undecided.append('proof not stable under another solver seed (instability, not a violation): ' + x)
+        if os.environ.get('VERIF_SELFTEST_IN_THOROUGH', '1') == '1' and not os.environ.get('VERIF_REPO'):
+            import selftest
+            sel = [m for m in selftest.M if m['prop'] == pid]
+            outcomes = []
+            with cf.ThreadPoolExecutor(max_workers=4) as ex:
+                for m, outc, detail, secs, _ in ex.map(selftest.run_one, [m for m in sel if not m['kani']]):
+                    outcomes.append({'id': m['id'], 'expect': m['expect'], 'outcome': outc, 'detail': detail})
+            thorough_extra['selftest'] = outcomes
+            for o in outcomes:
+                if o['outcome'] != 'pass':
+                    undecided.append('self-test entry %s did not behave as expected (%s %s): the check may have lost strength' % (o['id'], o['outcome'], o['detail']))
     # ---- vacuity
     vac_ok = 0
     for fn, st, why in twins:
@@ -354,6 +381,7 @@ def check_property(pid, tier):
             'kani_wall_s': round(kani_wall, 2),
             'not_covered': prop.get('not_covered', []),
             'undecided': undecided,
+            'thorough_extra': thorough_extra,
             'known_findings_suppressed': [k.get('obligation') for _, k in known_hits],
             'exhaustive': False,
         },
